@@ -118,7 +118,15 @@ class Model:
       wi, i = self.ev(ip, e[3], env, st)
       if not (0 <= i < e[2]): raise IRError("list index out of range")
       r = dict(e[1]); r["sig"] = f"{r['sig']}[{i}]"
+      if len(e) > 4 and e[4] is not None: r["sl"] = list(e[4])
       return self.read(ip, r, st)
+    if k == "cast":
+      w, v = self.ev(ip, e[2], env, st)
+      if w is None:
+        if not (0 <= v < (1 << e[1])): raise IRError("cast of an int that does not fit")
+        return (e[1], v)
+      if w != e[1]: raise IRError("width-changing cast of a Bits value")
+      return (w, v)
     if k == "tmp": return env["tmp"][e[1]]
     if k == "tmpsl":
       w, v = env["tmp"][e[1]]
@@ -192,7 +200,11 @@ class Model:
     if k == "ifexp":
       wc, c = self.ev(ip, e[1], env, st)
       (wa, a), (wb, b) = self.ev(ip, e[2], env, st), self.ev(ip, e[3], env, st)
-      if wa != wb or wa is None: raise IRError("ifexp widths")
+      if wa is None and wb is None: raise IRError("ifexp of two ints")
+      if wa is not None and wb is not None and wa != wb: raise IRError("ifexp widths")
+      ww = wa if wa is not None else wb
+      for wx, x in ((wa, a), (wb, b)):
+        if wx is None and not (0 <= x < (1 << ww)): raise IRError("ifexp literal does not fit")
       return (wa, a) if c else (wb, b)
     raise IRError(f"unknown expr {k}")
 
@@ -396,6 +408,7 @@ def static_rw(m, ip, stmts):
       # a literal index names one element; any other index may read every element
       for i in ([e[3][1]] if e[3][0] == "lit" else range(e[2])):
         r = dict(e[1]); r["sig"] = f"{r['sig']}[{i}]"
+        if len(e) > 4 and e[4] is not None: r["sl"] = list(e[4])
         reads.update(rng(r))
       ex(e[3])
     elif k in ("const", "lit", "lv", "tmp", "tmpsl", "cvar"): pass
@@ -408,6 +421,7 @@ def static_rw(m, ip, stmts):
     elif k in ("zext", "sext", "trunc"): ex(e[1])
     elif k == "red": ex(e[2])
     elif k == "ifexp": ex(e[1]); ex(e[2]); ex(e[3])
+    elif k == "cast": ex(e[2])
     else: raise IRError(k)
 
   def st(ss):
